@@ -101,6 +101,12 @@ class ClassInfo(object):
                     decos = [ast.unparse(d) for d in st.decorator_list]
                     if any(d.endswith('.setter') for d in decos):
                         kind = 'setter'
+                    elif any(d.endswith('.getter') for d in decos):
+                        # @Base.<name>.getter: a property with a new getter that keeps the setter of Base.<name>
+                        d = [d for d in decos if d.endswith('.getter')][0]
+                        if d.split('.')[-2] != st.name:
+                            raise AnalysisError('property %s derived from the differently named %s' % (st.name, d))
+                        kind = 'getter'
                     elif 'property' in decos:
                         kind = 'property'
                     elif 'staticmethod' in decos:
@@ -131,6 +137,8 @@ class ClassInfo(object):
                 for kind, node in entries:
                     if kind == 'setter':
                         return kind, node, c
+                if any(kind == 'getter' for kind, node in entries):
+                    continue          # the setter is the one of the property this one was derived from
                 # property(fget=..., fset=...) class attribute
                 for kind, node in entries:
                     if kind == 'classattr' and _is_property_call(node.value):
